@@ -965,3 +965,304 @@ Section Dom.
       destruct all_mode; [|reflexivity]. exfalso. subst m. eapply consumption_all_nostop. exact Hs.
   Qed.
 End Dom.
+
+(** ** statements at the level of [run] *)
+
+Definition dom (c : cfg) (G : sgraph) : Prop :=
+  C15_dom (c_allow_num c) (c_tau c) G = true /\ NoDup (local_graph G).
+
+Definition with_cache (b : bool) (c : cfg) : cfg :=
+  {| c_tau := c_tau c; c_cache := b; c_inverse := c_inverse c; c_allow_num := c_allow_num c;
+     c_last_level := c_last_level c; c_limit := c_limit c; c_cap := c_cap c |}.
+
+Lemma with_cache_id c : with_cache (c_cache c) c = c.
+Proof. destruct c; reflexivity. Qed.
+
+Lemma yields_sel lim items : yields (sel_events lim items) = [].
+Proof.
+  unfold sel_events. induction items as [|s items IH]; cbn; auto.
+  rewrite yields_app, IH. destruct (sel_query lim s); reflexivity.
+Qed.
+
+Lemma yields_psel G c O pass all_mode classes : yields (psel G c O pass all_mode classes) = [].
+Proof. apply yields_sel. Qed.
+
+Lemma yields_phead c all_mode : yields (phead c all_mode) = [].
+Proof. destruct all_mode; reflexivity. Qed.
+
+Lemma firstn_length_all {A} (l : list A) : firstn (List.length l) l = l.
+Proof. apply firstn_all. Qed.
+
+(** (a) class modes *)
+Lemma triples_class c G O all_mode classes :
+  ord_ok O -> dom c G -> (forall pass, pcls G c O pass all_mode classes <> []) ->
+  let r := run_class G c all_mode classes O in
+  let T1 := ptargets G c O 1 all_mode classes in
+  let T2 := ptargets G c O 2 all_mode classes in
+  r_ok r = true /\
+  Permutation (yields (r_p2 r)) (local_graph (neighbourhood (c_inverse c) T2 G)) /\
+  exists full1,
+    Permutation full1 (local_graph (neighbourhood (c_inverse c) T1 G)) /\
+    (yields (r_p1 r) = full1 \/
+     ((0 < c_cap c)%Z /\ all_mode = false /\ exists n, yields (r_p1 r) = firstn n full1)).
+Proof.
+  intros Ho [Hd Hn] Hne r T1 T2.
+  destruct (run_class_spec (c_allow_num c) (c_tau c) G Hd Hn c all_mode classes O eq_refl eq_refl Ho Hne)
+    as [st2 [I2 [Hok [E2 E1]]]].
+  fold r in Hok, E2, E1. split; [exact Hok|].
+  destruct (ptargets_ok (c_allow_num c) (c_tau c) G Hd c O 2 all_mode classes eq_refl Ho) as [HT2 Hp2].
+  destruct (ptargets_ok (c_allow_num c) (c_tau c) G Hd c O 1 all_mode classes eq_refl Ho) as [HT1 Hp1].
+  destruct (yielder_spec (c_allow_num c) (c_tau c) G Hd Hn c O 2 st2 _ eq_refl Ho HT2 Hp2 I2) as [Y2 _].
+  destruct (yielder_spec (c_allow_num c) (c_tau c) G Hd Hn c O 1 lst0 _ eq_refl Ho HT1 Hp1
+              (Inv0 (c_allow_num c) G)) as [Y1 _].
+  split.
+  - rewrite E2, !yields_app, yields_phead, yields_psel. exact Y2.
+  - exists (yields (events_of (yielder_blocks c G O 1 lst0 T1))). split; [exact Y1|].
+    destruct E1 as [[E1 _] | [n [Hc [Ha [E1 _]]]]]; rewrite E1, !yields_app, yields_phead, yields_psel; cbn [app].
+    + left. reflexivity.
+    + right. split; [exact Hc|]. split; [exact Ha|]. exists n. apply yields_cut.
+Qed.
+
+(** (b) the cache does not change what is delivered (as multisets) *)
+Lemma ptargets_with_cache G b c O pass all_mode classes :
+  ptargets G (with_cache b c) O pass all_mode classes = ptargets G c O pass all_mode classes.
+Proof. reflexivity. Qed.
+
+Lemma dom_with_cache b c G : dom c G -> dom (with_cache b c) G.
+Proof. intros H; exact H. Qed.
+
+Lemma cache_same_class c G O all_mode classes :
+  ord_ok O -> dom c G -> (forall pass, pcls G c O pass all_mode classes <> []) ->
+  let rc := run_class G (with_cache true c) all_mode classes O in
+  let rn := run_class G (with_cache false c) all_mode classes O in
+  Permutation (yields (r_p2 rc)) (yields (r_p2 rn)) /\
+  (((c_cap c <= 0)%Z \/ all_mode = true) -> Permutation (yields (r_p1 rc)) (yields (r_p1 rn))).
+Proof.
+  intros Ho Hd Hne rc rn.
+  destruct (triples_class (with_cache true c) G O all_mode classes Ho (dom_with_cache true c G Hd) Hne)
+    as [_ [A2 [f1 [A1 A1']]]].
+  destruct (triples_class (with_cache false c) G O all_mode classes Ho (dom_with_cache false c G Hd) Hne)
+    as [_ [B2 [g1 [B1 B1']]]].
+  fold rc in A2, A1'. fold rn in B2, B1'. cbn [c_inverse with_cache c_cap] in *.
+  split.
+  - eapply perm_trans; [exact A2|]. apply Permutation_sym. exact B2.
+  - intros Hfull.
+    assert (Ea : yields (r_p1 rc) = f1).
+    { destruct A1' as [E | [Hc [Ha _]]]; [exact E|]. destruct Hfull; [lia | congruence]. }
+    assert (Eb : yields (r_p1 rn) = g1).
+    { destruct B1' as [E | [Hc [Ha _]]]; [exact E|]. destruct Hfull; [lia | congruence]. }
+    rewrite Ea, Eb. eapply perm_trans; [exact A1|]. apply Permutation_sym. exact B1.
+Qed.
+
+(** (c) the query log *)
+Definition is_fetch (q : query) : bool :=
+  match fst q with QPO | QSP | QTypes => true | _ => false end.
+
+Lemma subseq_refl {A} (l : list A) : subseq l l.
+Proof. induction l; constructor; auto. Qed.
+
+Lemma subseq_app {A} (a b c d : list A) : subseq a b -> subseq c d -> subseq (a ++ c) (b ++ d).
+Proof. induction 1; cbn; intros Hcd; auto; constructor; auto. Qed.
+
+Lemma subseq_length {A} (a b : list A) : subseq a b -> List.length a <= List.length b.
+Proof. induction 1; cbn; lia. Qed.
+
+Lemma subseq_map_filter {A B} (f : A -> B) (p : A -> bool) (l : list A) : subseq (map f (filter p l)) (map f l).
+Proof. induction l as [|x l IH]; cbn; [constructor|]. destruct (p x); cbn; constructor; auto. Qed.
+
+Lemma queries_sel_nofetch lim items : filter is_fetch (queries (sel_events lim items)) = [].
+Proof.
+  unfold sel_events. induction items as [|s items IH]; cbn; auto.
+  rewrite queries_app, filter_app, IH, app_nil_r.
+  destruct s as [n|cl|p [o|]|[s'|] p]; reflexivity.
+Qed.
+
+Lemma queries_phead_nofetch c all_mode : filter is_fetch (queries (phead c all_mode)) = [].
+Proof. destruct all_mode; reflexivity. Qed.
+
+Lemma filter_true {A} (l : list A) : filter (fun _ => true) l = l.
+Proof. induction l; cbn; congruence. Qed.
+
+Lemma fetch_log_nocache c k st T : c_cache c = false -> fetch_log c k st T = map (fun a => (qk k, a)) T.
+Proof. intros E. unfold fetch_log. rewrite E. cbn. rewrite filter_true. reflexivity. Qed.
+
+Lemma fetch_log_lst0 c k T : fetch_log c k lst0 T = map (fun a => (qk k, a)) T.
+Proof.
+  unfold fetch_log. rewrite (filter_all _ T); auto. intros x _.
+  destruct k; cbn; rewrite andb_false_r; reflexivity.
+Qed.
+
+Lemma fetch_log_fetch c k st T : k <> FTypes -> filter is_fetch (fetch_log c k st T) = fetch_log c k st T.
+Proof.
+  intros Hk. apply filter_all. intros q Hq. unfold fetch_log in Hq. apply in_map_iff in Hq.
+  destruct Hq as [a [<- _]]. destruct k; try congruence; reflexivity.
+Qed.
+
+Lemma NoDup_app_intro {A} (l1 l2 : list A) :
+  NoDup l1 -> NoDup l2 -> (forall x, In x l1 -> ~ In x l2) -> NoDup (l1 ++ l2).
+Proof.
+  induction 1 as [|x l1 Hn Hnd IH]; cbn; intros H2 Hd; auto.
+  constructor.
+  - rewrite in_app_iff. intros [H|H]; [contradiction | apply (Hd x); auto].
+  - apply IH; auto.
+Qed.
+
+Lemma fetch_log_NoDup c k st T : NoDup T -> NoDup (fetch_log c k st T).
+Proof.
+  intros H. unfold fetch_log. apply NoDup_map_of_inj; [apply NoDup_filter; exact H|].
+  intros x y _ _ E. congruence.
+Qed.
+
+Lemma fetch_log_In c k st T q : In q (fetch_log c k st T) ->
+  fst q = qk k /\ In (snd q) T /\ (c_cache c && tracked k st (snd q) = false).
+Proof.
+  unfold fetch_log. intros H. apply in_map_iff in H. destruct H as [a [<- Ha]].
+  apply filter_In in Ha. destruct Ha as [Ha Hb]. apply negb_true_iff in Hb. cbn. auto.
+Qed.
+
+Lemma cache_log_class c G O all_mode classes :
+  ord_ok O -> dom c G -> (forall pass, pcls G c O pass all_mode classes <> []) ->
+  ((c_cap c <= 0)%Z \/ all_mode = true) ->
+  let rc := run_class G (with_cache true c) all_mode classes O in
+  let rn := run_class G (with_cache false c) all_mode classes O in
+  subseq (log_of rc) (log_of rn) /\
+  List.length (log_of rc) <= List.length (log_of rn) /\
+  NoDup (filter is_fetch (log_of rc)).
+Proof.
+  intros Ho [Hd Hn] Hne Hfull rc rn.
+  set (al := c_allow_num c). set (tau := c_tau c).
+  set (T1 := ptargets G c O 1 all_mode classes). set (T2 := ptargets G c O 2 all_mode classes).
+  destruct (ptargets_ok al tau G Hd c O 1 all_mode classes eq_refl Ho) as [HT1 Hp1].
+  destruct (ptargets_ok al tau G Hd c O 2 all_mode classes eq_refl Ho) as [HT2 Hp2].
+  fold T1 in HT1, Hp1. fold T2 in HT2, Hp2.
+  (* the run with the cache *)
+  destruct (run_class_spec al tau G Hd Hn (with_cache true c) all_mode classes O eq_refl eq_refl Ho Hne)
+    as [sc [Ic [_ [C2 C1]]]].
+  fold rc in C2, C1. rewrite !ptargets_with_cache in C2, C1. fold T1 in C1. fold T2 in C2.
+  destruct C1 as [[C1 Esc] | [n [Hc [Ha _]]]]; [|destruct Hfull; [cbn in Hc; lia | congruence]].
+  destruct (yielder_spec al tau G Hd Hn (with_cache true c) O 1 lst0 T1 eq_refl Ho HT1 Hp1 (Inv0 al G))
+    as [_ [_ [Qc1 [_ [_ Trc]]]]].
+  destruct (yielder_spec al tau G Hd Hn (with_cache true c) O 2 sc T2 eq_refl Ho HT2 Hp2 Ic)
+    as [_ [_ [Qc2 _]]].
+  (* the run without *)
+  destruct (run_class_spec al tau G Hd Hn (with_cache false c) all_mode classes O eq_refl eq_refl Ho Hne)
+    as [sn [In_ [_ [N2 N1]]]].
+  fold rn in N2, N1. rewrite !ptargets_with_cache in N2, N1. fold T1 in N1. fold T2 in N2.
+  destruct N1 as [[N1 _] | [n [Hc [Ha _]]]]; [|destruct Hfull; [cbn in Hc; lia | congruence]].
+  destruct (yielder_spec al tau G Hd Hn (with_cache false c) O 1 lst0 T1 eq_refl Ho HT1 Hp1 (Inv0 al G))
+    as [_ [_ [Qn1 _]]].
+  destruct (yielder_spec al tau G Hd Hn (with_cache false c) O 2 sn T2 eq_refl Ho HT2 Hp2 In_)
+    as [_ [_ [Qn2 _]]].
+  cbn [c_inverse with_cache] in *.
+  assert (Lc : log_of rc =
+    (queries (phead (with_cache true c) all_mode) ++ queries (psel G (with_cache true c) O 1 all_mode classes) ++
+     (fetch_log (with_cache true c) FPO lst0 T1 ++ (if c_inverse c then fetch_log (with_cache true c) FSP lst0 T1 else []))) ++
+    (queries (phead (with_cache true c) all_mode) ++ queries (psel G (with_cache true c) O 2 all_mode classes) ++
+     (fetch_log (with_cache true c) FPO sc T2 ++ (if c_inverse c then fetch_log (with_cache true c) FSP sc T2 else [])))).
+  { unfold log_of. rewrite C1, C2, !queries_app, Qc1, Qc2. reflexivity. }
+  assert (Ln : log_of rn =
+    (queries (phead (with_cache false c) all_mode) ++ queries (psel G (with_cache false c) O 1 all_mode classes) ++
+     (fetch_log (with_cache false c) FPO lst0 T1 ++ (if c_inverse c then fetch_log (with_cache false c) FSP lst0 T1 else []))) ++
+    (queries (phead (with_cache false c) all_mode) ++ queries (psel G (with_cache false c) O 2 all_mode classes) ++
+     (fetch_log (with_cache false c) FPO sn T2 ++ (if c_inverse c then fetch_log (with_cache false c) FSP sn T2 else [])))).
+  { unfold log_of. rewrite N1, N2, !queries_app, Qn1, Qn2. reflexivity. }
+  assert (Hsub : subseq (log_of rc) (log_of rn)).
+  { rewrite Lc, Ln. rewrite !fetch_log_lst0, !(fetch_log_nocache (with_cache false c)) by reflexivity.
+    apply subseq_app; [apply subseq_refl|].
+    apply subseq_app; [apply subseq_refl|]. apply subseq_app; [apply subseq_refl|].
+    apply subseq_app; [apply subseq_map_filter|].
+    destruct (c_inverse c); [apply subseq_map_filter | constructor]. }
+  split; [exact Hsub|]. split; [apply subseq_length; exact Hsub|].
+  rewrite Lc, !filter_app, !queries_phead_nofetch.
+  unfold psel. rewrite !queries_sel_nofetch. cbn [app].
+  assert (Hif : forall st T, filter is_fetch (if c_inverse c then fetch_log (with_cache true c) FSP st T else []) =
+                             (if c_inverse c then fetch_log (with_cache true c) FSP st T else [])).
+  { intros st T. destruct (c_inverse c); [apply fetch_log_fetch; discriminate | reflexivity]. }
+  rewrite !Hif, !fetch_log_fetch by discriminate.
+  (* tracked after pass 1 *)
+  assert (Htr : forall k x, k <> FTypes -> In x T1 -> (k = FPO \/ c_inverse c = true) -> tracked k sc x = true).
+  { intros k x Hk Hx Hki. rewrite Esc, (Trc k x Hk). cbn [c_cache with_cache andb].
+    assert (mem_str x T1 = true) by (apply mem_str_In; exact Hx). rewrite H, andb_true_r.
+    destruct k; cbn; try congruence; auto. destruct Hki as [Hki|Hki]; [discriminate | rewrite Hki; reflexivity]. }
+  rewrite <- app_assoc.
+  apply NoDup_app_intro; [apply fetch_log_NoDup; exact HT1 | |].
+  - apply NoDup_app_intro; [destruct (c_inverse c); [apply fetch_log_NoDup; exact HT1 | constructor] | |].
+    + apply NoDup_app_intro; [apply fetch_log_NoDup; exact HT2 |
+                              destruct (c_inverse c); [apply fetch_log_NoDup; exact HT2 | constructor] |].
+      intros q H1 H2. destruct (c_inverse c); [|destruct H2].
+      apply fetch_log_In in H1, H2. destruct H1 as [H1 _], H2 as [H2 _]. rewrite H1 in H2. discriminate.
+    + intros q H1 H2. destruct (c_inverse c) eqn:Ei; [|destruct H1].
+      apply fetch_log_In in H1. destruct H1 as [K1 [K2 _]].
+      apply in_app_iff in H2. destruct H2 as [H2|H2]; apply fetch_log_In in H2; destruct H2 as [M1 [M2 M3]].
+      * rewrite K1 in M1. discriminate.
+      * cbn [c_cache with_cache andb] in M3. rewrite (Htr FSP (snd q)) in M3; auto; discriminate.
+  - intros q H1 H2. apply fetch_log_In in H1. destruct H1 as [K1 [K2 _]].
+    apply in_app_iff in H2. destruct H2 as [H2|H2].
+    + destruct (c_inverse c); [|destruct H2]. apply fetch_log_In in H2. destruct H2 as [M1 _].
+      rewrite K1 in M1. discriminate.
+    + apply in_app_iff in H2. destruct H2 as [H2|H2].
+      * apply fetch_log_In in H2. destruct H2 as [M1 [M2 M3]].
+        cbn [c_cache with_cache andb] in M3. rewrite (Htr FPO (snd q)) in M3; auto; discriminate.
+      * destruct (c_inverse c); [|destruct H2]. apply fetch_log_In in H2. destruct H2 as [M1 _].
+        rewrite K1 in M1. discriminate.
+Qed.
+
+(** shape-map mode: selectors solved once, one pass over the yielder *)
+Definition sel_plain (s : selector) : bool :=
+  match s with
+  | SelNode n => plain n
+  | SelClass _ => true
+  | SelFocusS _ _ => true
+  | SelFocusO _ _ => false
+  end.
+
+Lemma map_targets_plain c G O items x :
+  ord_ok O -> dom c G -> forallb sel_plain items = true ->
+  In x (collect G O 1 2 (c_tau c) (-1) items) -> plain x = true.
+Proof.
+  intros Ho [Hd Hn] Hit Hx. apply (collect_In G O 1 2 _ _ items x Ho) in Hx. destruct Hx as [it [Hin Hx]].
+  rewrite forallb_forall in Hit. specialize (Hit it Hin).
+  assert (Hsub : forall l, incl l G -> In x (map (fun t => value_of_node (ss t)) l) -> plain x = true).
+  { intros l Hl H. apply in_map_iff in H. destruct H as [t [E Ht]].
+    destruct (dom_facts _ _ G Hd t (Hl t Ht)) as [s F]. rewrite (sf_subj _ _ _ F) in E. cbn in E. subst.
+    apply (sf_plain _ _ _ F). }
+  destruct Ho as [Ho _].
+  destruct it as [n|cl|p [o|]|s' p]; cbn in Hit, Hx; try discriminate.
+  - destruct Hx as [<-|[]]. exact Hit.
+  - eapply Hsub; [|exact Hx]. intros t Ht. try apply limit_answers_incl in Ht.
+    apply (Permutation_in _ (Ho _ _ _)) in Ht. apply filter_In in Ht. tauto.
+  - eapply Hsub; [|exact Hx]. intros t Ht. apply (Permutation_in _ (Ho _ _ _)) in Ht. apply filter_In in Ht. tauto.
+  - eapply Hsub; [|exact Hx]. intros t Ht. apply (Permutation_in _ (Ho _ _ _)) in Ht. apply filter_In in Ht. tauto.
+Qed.
+
+Lemma triples_map c G O items :
+  ord_ok O -> dom c G -> forallb sel_plain items = true ->
+  let r := run c (MShapeMap items) G O in
+  let T := collect G O 1 2 (c_tau c) (-1) items in
+  r_ok r = true /\ yields (r_p1 r) = [] /\
+  Permutation (yields (r_p2 r)) (local_graph (neighbourhood (c_inverse c) T G)) /\
+  queries (r_p2 r) = map (fun a => (QPO, a)) T ++ (if c_inverse c then map (fun a => (QSP, a)) T else []).
+Proof.
+  intros Ho Hdm Hit r T. pose proof Hdm as [Hd Hn].
+  assert (HT : NoDup T) by (apply collect_NoDup; exact Ho).
+  assert (Hp : forall a, In a T -> plain a = true) by (intros a Ha; eapply map_targets_plain; eauto).
+  destruct (yielder_spec (c_allow_num c) (c_tau c) G Hd Hn c O 2 lst0 T eq_refl Ho HT Hp (Inv0 _ G))
+    as [Y1 [Y2 [Y3 _]]].
+  subst r. cbn [run]. fold T. cbn [r_ok r_p1 r_p2].
+  rewrite (cut_at_err_id _ Y2), Y2. split; [reflexivity|]. split; [apply yields_sel|]. split; [exact Y1|].
+  rewrite Y3, !fetch_log_lst0. reflexivity.
+Qed.
+
+Lemma cache_log_map c G O items :
+  ord_ok O -> dom c G -> forallb sel_plain items = true ->
+  log_of (run (with_cache true c) (MShapeMap items) G O) = log_of (run (with_cache false c) (MShapeMap items) G O) /\
+  Permutation (yields (r_p2 (run (with_cache true c) (MShapeMap items) G O)))
+              (yields (r_p2 (run (with_cache false c) (MShapeMap items) G O))).
+Proof.
+  intros Ho Hd Hit.
+  destruct (triples_map (with_cache true c) G O items Ho (dom_with_cache true c G Hd) Hit) as [_ [_ [A B]]].
+  destruct (triples_map (with_cache false c) G O items Ho (dom_with_cache false c G Hd) Hit) as [_ [_ [A' B']]].
+  cbn [c_tau c_inverse with_cache] in *. split.
+  - unfold log_of. rewrite B, B'. reflexivity.
+  - eapply perm_trans; [exact A | apply Permutation_sym; exact A'].
+Qed.
